@@ -226,8 +226,15 @@ def mode_equivalence(rec, w_first, keep_log=False):
     if b.violation:
         return {"seed": rec["seed"], "tag": "", "clause": b.violation[1], "msg": b.violation[2],
                 "op": b.violation[3], "record": rec2}, b
-    for (ida, ra), (idb, rb) in zip(a.results, b.results):
-        if ida != idb or ra != rb:
+    # compare request by request; a request that ran in only one of the two executions (the other one ended
+    # early, e.g. with the documented oversize error on a reopen, because completion order changed which files
+    # were evicted) has nothing to be compared with
+    rb_by_id = dict((str(i), r) for i, r in b.results)
+    for ida, ra in a.results:
+        if str(ida) not in rb_by_id:
+            continue
+        idb, rb = ida, rb_by_id[str(ida)]
+        if ra != rb:
             return {"seed": rec["seed"], "tag": "modes", "clause": "18h",
                     "msg": "operation %s gives %r with parallel=%s and %r with parallel=%s"
                            % (ida, ra, rec["knobs"].get("parallel"), rb, rec2["knobs"]["parallel"]),
